@@ -47,13 +47,13 @@ JOBS.append(dict(name='c16_filter_row_groups', entry='h_filter_row_groups', enfo
 BT = dict(bool=0, i32=1, i64=2, int96=3, float=4, double=5)
 BD = dict(prop='C16', harness='harness/C16/builder_stats.c', overlays=['contracts/stats_builder.ovl'], includes=['.'],
           extra_sources=STUBS, trusted=TR)
-AV = dict(unwindset=['compare_int96.0:4', 'memcmp.0:9', 'memcpy.0:17'])
+AV = dict(unwindset=['compare_int96.0:4', 'memcmp.0:9', 'memcpy.0:9'], timeout=300)
 for t in ['bool', 'i32', 'i64', 'float', 'double']:
     JOBS.append(dict(name='c16_builder_add_values_%s' % t, entry='h_add_values', enforce='carquet_statistics_add_values',
-                     defines=['CQV_BT=%d' % BT[t]], min_loop_obligations=1, wip=True, **AV, **BD))
+                     defines=['CQV_BT=%d' % BT[t], 'CQV_STATS_EXACT=8'], min_loop_obligations=1, wip=True, **AV, **BD))
 for t in ['float', 'double']:
     JOBS.append(dict(name='c16_builder_add_values_%s_no_nan' % t, entry='h_add_values', enforce='carquet_statistics_add_values',
-                     defines=['CQV_BT=%d' % BT[t], 'CQV_NO_NAN=1'], min_loop_obligations=1, level='bounded',
+                     defines=['CQV_BT=%d' % BT[t], 'CQV_NO_NAN=1', 'CQV_STATS_EXACT=8'], min_loop_obligations=1, level='bounded',
                      bound='no NaN among the values added and in the bounds so far (NaN case: see c16_builder_add_values_%s)' % t,
                      wip=True, **AV, **BD))
 JOBS.append(dict(name='c16_builder_add_nulls', entry='h_add_nulls', loop_contracts=False, functions=['carquet_statistics_add_nulls'],
